@@ -176,8 +176,9 @@ def _mk_total(j):
         pre: lo <= a < hi and 0 <= b < NAQ and 0 <= c < NAQ
         post: _ is None
         """
+        a0 = a - lo
         with notrace():
-            text = ATOMS[pick(a - lo, hi - lo) + lo] + ATOMS[pick(b, NAQ)] + ATOMS[pick(c, NAQ)]
+            text = ATOMS[pick(a0, hi - lo) + lo] + ATOMS[pick(b, NAQ)] + ATOMS[pick(c, NAQ)]
             r = total(text)
         tick(True)
         return r
